@@ -199,6 +199,12 @@ func (s *server) CreateTable(ctx context.Context, req *btapb.CreateTableRequest)
 	if req.Table == nil {
 		req.Table = &btapb.Table{}
 	}
+	for id, cf := range req.Table.ColumnFamilies {
+		if err := validateGcRule(cf.GetGcRule()); err != nil {
+			s.mu.Unlock()
+			return nil, status.Errorf(codes.InvalidArgument, "family %q: %v", id, err)
+		}
+	}
 	req.Table.Name = tbl
 	// req.Table becomes the live definition below; the response (marshalled after this method
 	// returns) must not share its family map, so copy it before other requests can see the table.
@@ -316,6 +322,9 @@ func (s *server) ModifyColumnFamilies(ctx context.Context, req *btapb.ModifyColu
 			if exists[mod.Id] {
 				return nil, status.Errorf(codes.AlreadyExists, "family %q already exists", mod.Id)
 			}
+			if err := validateGcRule(mod.GetCreate().GcRule); err != nil {
+				return nil, status.Errorf(codes.InvalidArgument, "family %q: %v", mod.Id, err)
+			}
 			exists[mod.Id] = true
 		} else if mod.GetDrop() {
 			if !exists[mod.Id] {
@@ -325,6 +334,9 @@ func (s *server) ModifyColumnFamilies(ctx context.Context, req *btapb.ModifyColu
 		} else if mod.GetUpdate() != nil {
 			if !exists[mod.Id] {
 				return nil, fmt.Errorf("no such family %q", mod.Id)
+			}
+			if err := validateGcRule(mod.GetUpdate().GcRule); err != nil {
+				return nil, status.Errorf(codes.InvalidArgument, "family %q: %v", mod.Id, err)
 			}
 		}
 	}
